@@ -352,6 +352,16 @@ func consistent(atoms map[string]*Term, v map[string]bool) bool {
 			if b.isConst() && b.Aux == "0" && v[t.key] && isUnsignedTerm(a) {
 				return false
 			}
+			// ... so whatever an unsigned value is below is not zero
+			if v[t.key] && isUnsignedTerm(a) && !b.isConst() {
+				zero := tConst("0", nil)
+				if e, ok := atoms[tEq(b, zero).key]; ok && v[e.key] {
+					return false
+				}
+				if p, ok := atoms[tLtRaw(zero, b).key]; ok && !v[p.key] {
+					return false
+				}
+			}
 		}
 	}
 	return true
